@@ -229,11 +229,14 @@ def _exec_wide(args):
         # (no fractional narrowing: the register's n_frac is the exact result's)
         for _ in range(count // 2 + 1):
             op = rng.choice(['mul', 'mul', 'add', 'sub'])
-            wx, wy = rng.choice([(30, 30), (31, 31), (28, 33), (20, 40), (12, 50), (8, 8), (26, 27), (rng.randint(2, 31), rng.randint(2, 31))])
+            wx, wy = rng.choice([(30, 30), (31, 31), (28, 33), (20, 40), (12, 50), (8, 8), (26, 27), (24, 50), (50, 24), (16, 52), (rng.randint(2, 31), rng.randint(2, 31))])
             sx, sy = rng.choice([(True, False), (False, True), (True, True), (False, False)])
-            fx_, fy_ = rng.randint(0, min(wx, 6)), rng.randint(0, min(wy, 6))
+            if op == 'mul':
+                fx_, fy_ = rng.randint(0, min(wx, 6)), rng.randint(0, min(wy, 6))
+            else:               # sums and differences of operands whose binary points are far apart (one operand is shifted a long way)
+                fx_, fy_ = rng.choice([0, wx, wx - 4, rng.randint(0, wx)]), rng.choice([0, wy, rng.randint(0, wy)])
             tf_ = fx_ + fy_ if op == 'mul' else max(fx_, fy_)
-            tw = rng.choice([8, 16, 24, 31, 32, 33, 48, 52])
+            tw = rng.choice([8, 16, 24, 31, 32, 33, 48, 52, 64, 65, 72, 100, 128])
             if tw < tf_:
                 continue
             rx = ((-(1 << (wx - 1)), (1 << (wx - 1)) - 1) if sx else (0, (1 << wx) - 1))
@@ -245,6 +248,15 @@ def _exec_wide(args):
                                              route='function', method=rng.choice(['raw', 'raw', 'repr']) if wx + wy <= 50 else 'raw',
                                              target=rng.choice(['out', 'out_like']), tfmt=(True, tw, tf_), tmodes=(rng.choice(ROUND), 'wrap'),
                                              extra={'register': True}))
+        # words of 64 bits and more fed with CONTAINERS of Python integers where NumPy on its own would pick float64
+        for _ in range(count // 4 + 1):
+            s = rng.random() < 0.5
+            w = rng.choice([64, 65, 72, 100, 128])
+            band = [(1 << 63) + 5, -3 if s else 3, 7, (1 << 63) + 1, (1 << 64) - 1, rng.randint(0, 1 << 62)]
+            rng.shuffle(band)
+            out.append(x_store.observe(fx, np, (s, w, 0), (rng.choice(ROUND), 'wrap'), [F(b) for b in band],
+                                       'pyint-' + rng.choice(['list', 'tuple', 'nested-list', 'nested-tuple', 'list-1xk', 'list-3d']),
+                                       rng.choice(['ctor', 'call', 'set_val']), props, True, {'wide': True}))
         # n_word in 64..256 with Python-integer inputs of any size (the int64/object switch)
         for _ in range(count // 2 + 1):
             s = rng.random() < 0.5
